@@ -76,6 +76,7 @@ Record st : Type := mkSt {
   s_indexed : list N;                    (* indexed_files *)
   s_recs : list recd; s_mcs : list mcd; s_leaves : list leaf;
   s_nclass : list (name * N); s_ndef : list (name * N); s_nmc : list (name * N);
+  s_ndset : list (name * N);             (* name_to_defset (leaf ids) *)
   s_pos : list (rng * symid);            (* newest first *)
   s_refs : list (symid * rng);           (* newest first *)
   s_diags : list (rng * dkind);          (* newest first *)
@@ -85,7 +86,7 @@ Record st : Type := mkSt {
 }.
 
 Definition st0 : st :=
-  mkSt [0] [0] [] [] [] [] [] [] [] [] [] [mkScope KRoot []] 0 false.
+  mkSt [0] [0] [] [] [] [] [] [] [] [] [] [] [mkScope KRoot []] 0 false.
 
 (** ---------------------------------------------------------------------------------------------
     the Option-returning, state-passing style of `fn index(&self, ctx: &mut IndexCtx) -> Option<T>` *)
@@ -104,7 +105,7 @@ Definition get {A} (f : st -> A) : M A := fun s => (Some (f s), s).
 Definition upd (f : st -> st) : M unit := fun s => (Some tt, f s).
 Definition bad {A} : M A :=
   fun s => (None, mkSt (s_trace s) (s_indexed s) (s_recs s) (s_mcs s) (s_leaves s) (s_nclass s) (s_ndef s)
-                       (s_nmc s) (s_pos s) (s_refs s) (s_diags s) (s_scopes s) (s_anon s) true).
+                       (s_nmc s) (s_ndset s) (s_pos s) (s_refs s) (s_diags s) (s_scopes s) (s_anon s) true).
 
 Declare Scope ix_scope.
 Delimit Scope ix_scope with ix.
@@ -145,34 +146,37 @@ Definition lenN {A} (l : list A) : N := N.of_nat (length l).
 (** ---------------------------------------------------------------------------------------------
     state updates (one setter per field group; every other field is copied) *)
 Definition set_files (tr ix : list N) (s : st) : st :=
-  mkSt tr ix (s_recs s) (s_mcs s) (s_leaves s) (s_nclass s) (s_ndef s) (s_nmc s) (s_pos s) (s_refs s)
+  mkSt tr ix (s_recs s) (s_mcs s) (s_leaves s) (s_nclass s) (s_ndef s) (s_nmc s) (s_ndset s) (s_pos s) (s_refs s)
        (s_diags s) (s_scopes s) (s_anon s) (s_bad s).
 Definition set_recs (r : list recd) (s : st) : st :=
-  mkSt (s_trace s) (s_indexed s) r (s_mcs s) (s_leaves s) (s_nclass s) (s_ndef s) (s_nmc s) (s_pos s) (s_refs s)
+  mkSt (s_trace s) (s_indexed s) r (s_mcs s) (s_leaves s) (s_nclass s) (s_ndef s) (s_nmc s) (s_ndset s) (s_pos s) (s_refs s)
        (s_diags s) (s_scopes s) (s_anon s) (s_bad s).
 Definition set_mcs (m : list mcd) (s : st) : st :=
-  mkSt (s_trace s) (s_indexed s) (s_recs s) m (s_leaves s) (s_nclass s) (s_ndef s) (s_nmc s) (s_pos s) (s_refs s)
+  mkSt (s_trace s) (s_indexed s) (s_recs s) m (s_leaves s) (s_nclass s) (s_ndef s) (s_nmc s) (s_ndset s) (s_pos s) (s_refs s)
        (s_diags s) (s_scopes s) (s_anon s) (s_bad s).
 Definition set_leaves (l : list leaf) (s : st) : st :=
-  mkSt (s_trace s) (s_indexed s) (s_recs s) (s_mcs s) l (s_nclass s) (s_ndef s) (s_nmc s) (s_pos s) (s_refs s)
+  mkSt (s_trace s) (s_indexed s) (s_recs s) (s_mcs s) l (s_nclass s) (s_ndef s) (s_nmc s) (s_ndset s) (s_pos s) (s_refs s)
        (s_diags s) (s_scopes s) (s_anon s) (s_bad s).
 Definition set_names (c d m : list (name * N)) (s : st) : st :=
-  mkSt (s_trace s) (s_indexed s) (s_recs s) (s_mcs s) (s_leaves s) c d m (s_pos s) (s_refs s)
+  mkSt (s_trace s) (s_indexed s) (s_recs s) (s_mcs s) (s_leaves s) c d m (s_ndset s) (s_pos s) (s_refs s)
        (s_diags s) (s_scopes s) (s_anon s) (s_bad s).
+Definition set_ndset (d : list (name * N)) (s : st) : st :=
+  mkSt (s_trace s) (s_indexed s) (s_recs s) (s_mcs s) (s_leaves s) (s_nclass s) (s_ndef s) (s_nmc s) d (s_pos s)
+       (s_refs s) (s_diags s) (s_scopes s) (s_anon s) (s_bad s).
 Definition set_pos (p : list (rng * symid)) (s : st) : st :=
-  mkSt (s_trace s) (s_indexed s) (s_recs s) (s_mcs s) (s_leaves s) (s_nclass s) (s_ndef s) (s_nmc s) p (s_refs s)
+  mkSt (s_trace s) (s_indexed s) (s_recs s) (s_mcs s) (s_leaves s) (s_nclass s) (s_ndef s) (s_nmc s) (s_ndset s) p (s_refs s)
        (s_diags s) (s_scopes s) (s_anon s) (s_bad s).
 Definition set_refs (r : list (symid * rng)) (s : st) : st :=
-  mkSt (s_trace s) (s_indexed s) (s_recs s) (s_mcs s) (s_leaves s) (s_nclass s) (s_ndef s) (s_nmc s) (s_pos s) r
+  mkSt (s_trace s) (s_indexed s) (s_recs s) (s_mcs s) (s_leaves s) (s_nclass s) (s_ndef s) (s_nmc s) (s_ndset s) (s_pos s) r
        (s_diags s) (s_scopes s) (s_anon s) (s_bad s).
 Definition set_diags (d : list (rng * dkind)) (s : st) : st :=
-  mkSt (s_trace s) (s_indexed s) (s_recs s) (s_mcs s) (s_leaves s) (s_nclass s) (s_ndef s) (s_nmc s) (s_pos s)
+  mkSt (s_trace s) (s_indexed s) (s_recs s) (s_mcs s) (s_leaves s) (s_nclass s) (s_ndef s) (s_nmc s) (s_ndset s) (s_pos s)
        (s_refs s) d (s_scopes s) (s_anon s) (s_bad s).
 Definition set_scopes (sc : list scope) (s : st) : st :=
-  mkSt (s_trace s) (s_indexed s) (s_recs s) (s_mcs s) (s_leaves s) (s_nclass s) (s_ndef s) (s_nmc s) (s_pos s)
+  mkSt (s_trace s) (s_indexed s) (s_recs s) (s_mcs s) (s_leaves s) (s_nclass s) (s_ndef s) (s_nmc s) (s_ndset s) (s_pos s)
        (s_refs s) (s_diags s) sc (s_anon s) (s_bad s).
 Definition set_anon (a : N) (s : st) : st :=
-  mkSt (s_trace s) (s_indexed s) (s_recs s) (s_mcs s) (s_leaves s) (s_nclass s) (s_ndef s) (s_nmc s) (s_pos s)
+  mkSt (s_trace s) (s_indexed s) (s_recs s) (s_mcs s) (s_leaves s) (s_nclass s) (s_ndef s) (s_nmc s) (s_ndset s) (s_pos s)
        (s_refs s) (s_diags s) (s_scopes s) a (s_bad s).
 
 (** ---------------------------------------------------------------------------------------------
@@ -209,6 +213,12 @@ Definition add_leaf (l : leaf) : M N :=
   fun s =>
     let id := lenN (s_leaves s) in
     (Some id, add_pos (lf_loc l) (SyLeaf id) (set_leaves (s_leaves s ++ [l]) s)).
+(** add_defset: allocated, named (name_to_defset), positioned *)
+Definition add_defset (l : leaf) : M N :=
+  fun s =>
+    let id := lenN (s_leaves s) in
+    let s1 := set_leaves (s_leaves s ++ [l]) s in
+    (Some id, add_pos (lf_loc l) (SyLeaf id) (set_ndset ((lf_name l, id) :: s_ndset s1) s1)).
 (** add_anonymous_defm: allocated, not positioned *)
 Definition add_leaf_nopos (l : leaf) : M N :=
   fun s => (Some (lenN (s_leaves s)), set_leaves (s_leaves s ++ [l]) s).
@@ -247,6 +257,7 @@ Definition mc_add_parent (p : N) (m : mcd) : mcd :=
 Definition find_class (s : st) (nm : name) : option N := alookup nm (s_nclass s).
 Definition find_def (s : st) (nm : name) : option N := alookup nm (s_ndef s).
 Definition find_multiclass (s : st) (nm : name) : option N := alookup nm (s_nmc s).
+Definition find_defset (s : st) (nm : name) : option N := alookup nm (s_ndset s).
 
 (** Record::find_field: own map first, then the parents in order, depth first.  The recursion of the
     Rust code is bounded by [fuel]; [rec_fuel] (number of records + 1) suffices when no record is its own
@@ -294,6 +305,7 @@ Fixpoint can_cast (s : st) (a b : mty) : bool :=
   match a, b with
   | MUninit, _ | _, MUninit => true
   | MAny, _ | _, MAny => true
+  | MUnknown, _ | _, MUnknown => true
   | MInt, MBit | MBit, MInt => true
   | MInt, MBits _ | MBits _, MInt => true
   | MString, MCode | MCode, MString => true
@@ -373,7 +385,10 @@ Definition find_local (s : st) (nm : name) : option symid :=
 Definition resolve_id (s : st) (nm : name) : option symid :=
   match find_local s nm with
   | Some id => Some id
-  | None => option_map SyRecord (find_def s nm)
+  | None => match find_def s nm with
+            | Some d => Some (SyRecord d)
+            | None => option_map SyLeaf (find_defset s nm)
+            end
   end.
 
 (** ---------------------------------------------------------------------------------------------
